@@ -133,7 +133,7 @@ def step_case(alg_t, alg_name, spec, m, eps, combo, regs, which, res, case):
     after = stepmc.snapshot(alg)
     regions = stepmc.read_regions(alg, [i for i, r in enumerate(combo) if r != "D"])
     if fam == "paveba":
-        ref = reference.paveba_reference(W, eps, regions, before, after, kind)
+        ref = reference.paveba_reference(W, eps, regions, before, after, kind, rect_shift=getattr(alg, "cone_alpha_eps", None))
     elif fam == "vogp":
         slack = eps * oracles.u_star(W)[0] if alg_name == "VOGP" else np.full(m, eps)
         ref = reference.vogp_reference(W, eps, regions, before, after, slack, pess_impl, W.shape == (2, 2))
